@@ -61,7 +61,7 @@ PARAM = ["is_scheduled", "next_operation", "earliest_start_time",
 
 def gen_cases(ctx):
     rng = ctx.rng
-    n = ctx.scale(2500, 60000)
+    n = ctx.scale(2500, 360000)
     for i in range(n):
         filt = i % 3 != 0
         c = gen_history_case(
@@ -79,7 +79,7 @@ def gen_cases(ctx):
         # the unscheduled-operations observer may also be created in the middle of a history
         c["mirror_after"] = rng.choice([0, 0, 1, 2, 3, rng.randint(1, 10)])
         yield c
-    for i in range(ctx.scale(50, 1500)):
+    for i in range(ctx.scale(50, 9000)):
         inst = gen.gen_instance(rng, rng.choice(gen.INSTANCE_CLASSES), max_jobs=3,
                                 max_machines=3, max_ops=rng.randint(4, 6))
         fs = gen.gen_filter_spec(rng) if not gen.has_zero(inst) and rng.random() < 0.5 else None
